@@ -4,12 +4,27 @@
 (* always appends quit.                                                                    *)
 EXTENDS Integers, Sequences, TLC, Json
 CONSTANT MaxCmds
-Cmds == {"print", "print16", "print32", "write", "write16", "write32", "disasm", "symbols", "info", "registers", "set",
-         "clear", "break", "push", "step", "reset", "speed", "display", "dumpram", "flags", "bogus", ""}
+\* every name of command_names[] except run and call (which execute the loaded program until it returns, legitimately
+\* for as long as that takes), plus two names that are not commands
+Cmds == {"print", "print16", "print32", "write", "write16", "write32", "disasm", "symbols", "info", "registers", "reg", "set",
+         "clear", "break", "push", "step", "stop", "reset", "speed", "display", "no_clear", "dumpram", "dump_ram", "help", "asm",
+         "flags", "bogus", ""}
+\* how a session ends: the quit command, the exit command, or end of input without either
+Ends == {"quit", "exit", "eof"}
+\* interactive asm: `asm <arg>`, source lines, an empty line.  @Lnnn@ stands for a line of nnn characters (the renderer
+\* writes it out); a body without the closing empty line runs into the end of the session
+Bodies == {<<>>, <<"mov.w #5, r6">>, <<"bogus line">>, <<".org 0xfffffff0", ".db 1, 2, 3, 4">>, <<".db 1", "", "print 0-4">>,
+           <<"@L1022@">>, <<"@L1023@">>, <<"@L1024@">>, <<"@L5000@">>, <<".include \"nothing.inc\"">>, <<".macro m", "m", ".endm", "m">>,
+           <<".org 0x10000", "nop", ".org 0", "nop">>, <<"asm">>, <<"quit">>, <<".msp430x", "mova #0x12345, r5">>}
+AsmArgs == {"", "0", "0x100", "0xffffffff", "-1", "xyz", "0x10-0x20"}
+AsmCases == {[cmd |-> "asm", arg |-> a, body |-> b, closed |-> c] : a \in AsmArgs, b \in Bodies, c \in BOOLEAN}
 Args == {"", "0", "0x10", "10h", "-1", "0xffffffff", "0x10-0x20", "0x20-0x10", "0x10-", "-0x10", "xyz", "0x10 1 2 3",
          "0xfffe 0x1234", "4294967296", "r4=5", "pc=0x1000", "999999999999999999999", "0x", "1 2 3 4 5 6 7 8 9 10 11 12 13 14 15 16 17 18 19 20"}
 VARIABLE s
 SInit == s = <<>>
 SNext == Len(s) < MaxCmds /\ \E cm \in Cmds, a \in Args : s' = Append(s, [cmd |-> cm, arg |-> a])
 SEmit == s = <<>> \/ PrintT("CASE " \o ToJson(s))
+\* one-command sessions under every ending, and the asm blocks
+SEmitEnds == (Len(s) = 1 => \A e \in Ends : PrintT("ENDS " \o ToJson([cmds |-> s, end |-> e])))
+             /\ (s = <<>> => \A c \in AsmCases, e \in Ends : PrintT("ENDS " \o ToJson([cmds |-> <<c>>, end |-> e])))
 =============================================================================
